@@ -21,6 +21,10 @@ NEWNAMES = [["ALPHA", "BRAVO", "CHARLY", "DELTA9", "ECHO", "FOXT", "GOLF", "HOTE
              "I", "XX", "YY", "UU", "SS"]]
 
 
+NEWNAMES.append(["AB", "BD", "ABD", "BA", "DA", "DAB", "AD", "XY", "YU", "US", "SX", "XU", "PCX", "CCC", "DPP", "AA", "BB", "DD", "XX", "YY2", "UUU", "SS1", "PCR1",
+                 "XPCR", "APC", "BDP", "ACC", "DCC", "SP", "UX9"])
+
+
 def setup(ctx):
     asmmon.install()
 
@@ -29,7 +33,7 @@ def gen_cases(tier, seed):
     thorough = tier == "thorough"
     for k in range(3000 if thorough else 250):
         r = rng(seed, "C18", k)
-        org = r.choice([0x200, 0x1000, 0x4000, 0x7F00, 0xC000])
+        org = r.choice([0x200, 0x1000, 0x4000, 0x7F00, 0xC000, None])      # None: no ORG line, the first statement is real code
         p = progs.gen_program(r, r.choice([6, 12, 25, 50]), origin=org)
         yield {"id": "base/%d" % k, "k": k, "prog": p}
 
@@ -71,7 +75,7 @@ def _run_case(case, ctx):
         return
     nstm = len(base.stmts)
     skip = nstm - len(p["stmts"]) - len([e for e in p["equs"] if e["pos"] == "bottom"])
-    labels = [s["label"] for s in p["stmts"] if s["label"]] + [e["label"] for e in p["equs"]]
+    labels = [s["label"] for s in p["stmts"] if s["label"]] + [e["label"] for e in p["equs"]] + ([p["org_label"]] if p.get("org_label") else [])
     has_abs = any(s["abs"] for s in p["stmts"])
     has_rel = any(s["kind"] in ("rel", "lrel", "pcr") for s in p["stmts"])
 
@@ -114,9 +118,9 @@ def _run_case(case, ctx):
 
     # --- shift by D
     org = p["origin"]
-    top = org + len(base.image)
+    top = (org or 0) + len(base.image)
     for D in r.sample([1, 2, 0x10, 0x100, 0x123, 0x1000, -1, -0x10, -0x100, 0x2001], 3):
-        if org + D < 0x100 or top + D > 0xFFFF:
+        if org is None or org + D < 0x100 or top + D > 0xFFFF:
             continue
         lines2 = progs.render(p, origin=org + D)
         o2 = accepted("shift", lines2)
@@ -180,7 +184,8 @@ def _run_case(case, ctx):
             if kind == "inh":
                 suf.append({"label": "", "mn": r.choice(progs.INH), "op": ""})
             elif kind == "data":
-                suf.append({"label": "", "mn": "FCB", "op": "1,2,3"})
+                suf.append(r.choice([{"label": "", "mn": "FCB", "op": "1,2,3"}, {"label": "", "mn": "RMB", "op": "64"}, {"label": "", "mn": "RMB", "op": "200"},
+                                     {"label": "", "mn": "FCC", "op": '"HELLO WORLD!"'}, {"label": "", "mn": "FDB", "op": "1,2,3,4,5,6,7,8"}]))
             elif kind == "label":
                 suf.append({"label": "SFX%d%d" % (variant, j), "mn": "NOP", "op": ""})
             else:
